@@ -781,6 +781,9 @@ func driveSync(c *hx.Ctx) error {
 		c.Count("outcome."+o.Outcome, 1)
 		c.Count("plugin."+sp.Plugin, 1)
 		c.Count("script."+sp.Script, 1)
+		if o.RegReplyLost {
+			c.Count("plugin_end.register_reply_lost_after_failed_sync", 1)
+		}
 		c.Count("messages."+msgBucket(len(o.Msgs)), 1)
 		c.Count("objects."+objBucket(len(sp.Pods)+len(sp.Ctrs)), 1)
 		c.Count("state."+sizeBucket(sum(o.WP)+sum(o.WC)), 1)
